@@ -123,7 +123,9 @@ class DataSet(BaseObject):
             # vs. in memory, simply skip and move on when
             # something can't be deleted because it isn't
             # in the UFO.
-            writer.removePath("%s/%s" % ("data", fileName), force=True)
+            path = "%s/%s" % ("data", fileName)
+            if writer.fs.exists(path):
+                writer.removePath(path, force=True)
         self._scheduledForDeletion.clear()
         for fileName, data in self._data.items():
             # in a save as, loaded data that has not been modified
